@@ -234,7 +234,13 @@ def gen(rng, tier, i):
         elif a == 'nf':
             # a failing command whose notify_fail() function runs a script (the driver calls it after every action said no)
             c = rng.choice(t)
-            scr = bomb_script('nf').replace(';', ',') if rng.random() < 0.6 else 'rec nfran'
+            r = rng.random()
+            if r < 0.45: scr = bomb_script('nf').replace(';', ',')
+            elif r < 0.7: scr = 'rec nfran'
+            else:
+                # the running notify_fail function registers another message or function (the driver still holds the first)
+                inner = rng.choice(('nfs inner', 'nff rec nfran2', 'nfs one,nfs two', 'nff nfs deeper'))
+                scr = inner + rng.choice(('', ',' + bomb_script('nf').replace(';', ','), ',rec after'))
             for _ in range(rng.choice((1, 1, 2, 4))):
                 p.cycle(say(c, 'nf ' + scr))
         elif a == 'limit':
